@@ -115,6 +115,15 @@ def expects_empty(state):
     return state in _TABLE and any(a['tok'] == 'Empty' for a in _TABLE[state]['alts'])
 
 
+def in_description(state):
+    """Description states: free text is expected, the doc string delimiter is too (so it is not a doc string state)."""
+    global _TABLE
+    if _TABLE is None:
+        _TABLE = R.java_table()
+    toks = [a['tok'] for a in _TABLE.get(state, {'alts': []})['alts']]
+    return 'Other' in toks and 'Comment' in toks
+
+
 def join(lines, final_nl, eol='\n'):
     return eol.join(lines) + (eol if final_nl and lines else '')
 
@@ -254,8 +263,13 @@ def check_document(text, acc, origin):
     gaps = []
     for g in range(0, nl + 1):
         st = 0 if g == 0 else states.get(g)
-        if st is None or not expects_empty(st):
+        if st is None:
             continue
+        if not expects_empty(st):
+            # inside a description a blank line is free text - except right before the line that ends the description:
+            # there it is a trailing blank line, which is not part of the description
+            if not (in_description(st) and g < nl and kinds.get(g + 1) in STRUCT):
+                continue
         gaps.append(g)
         for blank in ('', '   '):
             l2 = lines[:g] + [blank] + lines[g:]
